@@ -646,7 +646,7 @@ func TestVerifC15Directed(t *testing.T) {
 			c.restart(1<<30, 2, true)
 		})
 	}
-	// known finding 1: the repair is tied to the catch-up replay.  A node that crashed in the
+	// known-finding class 9: the repair is tied to the catch-up replay.  A node that crashed in the
 	// middle of a record and then syncs blocks before consensus starts (doWALCatchup=false, or
 	// no marker for height-1 in the log) keeps the torn record and appends behind it.
 	for _, cu := range []bool{false, true} {
